@@ -1,5 +1,4 @@
 import logging
-from functools import cached_property
 from typing import TYPE_CHECKING, Any, Union, Optional, Generator
 import numpy as np
 
@@ -158,14 +157,20 @@ class EFLRItem:
 
         return super().__setattr__(key, value)
 
-    @cached_property
+    @property
     def obname(self) -> bytes:
         """Create OBNAME bytes of this item - bytes used to identify an item in the file.
 
         They serve as a reference to the current item - e.g. when a Parameter references a Zone.
+        The bytes are kept for later use for as long as the parts they are made of remain unchanged.
         """
 
-        return write_struct_obname(self)
+        key = (self.name, self._origin_reference, self._copy_number)
+        cached = self.__dict__.get('_obname_cache', None)
+        if cached is None or cached[0] != key:
+            cached = (key, write_struct_obname(self))
+            self.__dict__['_obname_cache'] = cached
+        return cached[1]
 
     def _make_attrs_bytes(self) -> bytes:
         """Create bytes describing the values of the EFLRItem instance's Attributes."""
